@@ -321,6 +321,7 @@ func runC08(e *Engine, r *Report, tier string) {
 
 	memo := map[*ssa.Function][]delta{}
 	nconv := 0
+	var convRoutines []*ssa.Function
 	for _, fn := range e.Funcs {
 		if fn.Parent() != nil || isAuxPkg(fnPkgPath(fn)) || strings.HasSuffix(fnPkgPath(fn), "/types") {
 			continue
@@ -376,6 +377,7 @@ func runC08(e *Engine, r *Report, tier string) {
 		}
 		// if a caller in the same package already inlines this function as part of a pair, still check it on its own only when balanced
 		nconv++
+		convRoutines = append(convRoutines, fn)
 		k := e.FnKey(fn)
 		// R7: the balance above is per *success* path, so a failed leg must end the routine: the error of every value
 		// operation is propagated on every path (not overwritten by a later call, not tested on some paths only)
@@ -475,6 +477,21 @@ func runC08(e *Engine, r *Report, tier string) {
 		})
 		if len(amtPars) > 0 {
 			r.Check(badAmt == "", "R1", k+" amount", e.Pos(fn.Pos()), "every leg moves the requested amount", "a leg of the conversion moves a different amount: "+badAmt)
+		}
+	}
+	// R7 (callers): a conversion routine that failed has already run some of its legs; whoever called it must fail too —
+	// a nil return on the error branch commits the legs that ran
+	for _, cr := range convRoutines {
+		for _, cs := range e.CallSites(cr) {
+			if isAuxPkg(fnPkgPath(cs.Caller)) || !strings.Contains(fnPkgPath(cs.Caller), "x/erc20/keeper") {
+				continue
+			}
+			ck := e.CanonFnKey(cs.Caller) + " -> " + cr.Name() + " error"
+			if ok, why := errorHandled(cs.Call); ok {
+				r.Ok("R7", ck, e.InstrPos(cs.Call), "the conversion's error fails the caller on every path")
+			} else {
+				r.Fail("R7", ck, e.InstrPos(cs.Call), "a failed conversion can be reported as success by its caller ("+why+"): the legs that ran before the failure (the sender's coins are escrowed first) are committed although nothing was credited")
+			}
 		}
 	}
 	if nconv < 4 {
